@@ -380,6 +380,31 @@ def run_meter_pair(case):
     run_meter([case[2], case[3]])
 
 
+def run_dots_order(case):
+    """case = [value label base, [nr, nr, ...]]: in a freshly loaded value module the dotted forms of a base value are built
+    in the given order of dot counts; each must be the documented value (and analyse back) whatever was built before."""
+    import importlib
+    from fractions import Fraction
+    S = engine.S
+    base_label, order = case
+    importlib.reload(mvalue)
+    base = V.BY_LABEL[base_label][1]
+    for nr in order:
+        got = mvalue.dots(base, nr)
+        exact = Fraction(V.BY_LABEL[base_label][2]) / (2 - Fraction(1, 2 ** nr))
+        S.trans(1)
+        if not _rel_close(got, exact, 1e-12):
+            S.problem("value.dots(%s, %d) after dots with %r in a freshly loaded module" % (base_label, nr, order[:order.index(nr)]),
+                      float(exact), got)
+            return
+        back = mvalue.determine(got)
+        if tuple(back[1:]) != (nr, 1, 1) or not _rel_close(back[0], Fraction(V.BY_LABEL[base_label][2]), 1e-12):
+            S.problem("value.determine(value.dots(%s, %d))" % (base_label, nr), [base, nr, 1, 1], list(back))
+            return
+    S.count("dots_orders")
+    S.outcome((base_label, tuple(order)))
+
+
 def meter_units(thorough):
     ints = list(range(-8, 131)) + [255, 256, 257, 1000, 1024, 4096, 65536, 65537, 2 ** 31, 2 ** 32, 2 ** 40, 3 * 2 ** 40,
                                    2 ** 53, 2 ** 53 + 1, 2 ** 64, 2 ** 64 - 1, 10 ** 30, 2 ** 1000, 2 ** 1000 + 1, 3 * 2 ** 1000,
@@ -416,6 +441,7 @@ CLAUSES = {
     "helpers": run_helpers,
     "meter": run_meter,
     "meter_pair": run_meter_pair,
+    "dots_order": run_dots_order,
 }
 
 
@@ -446,6 +472,11 @@ def explore(ctx):
         ctx.bound("meter_counts", counts)
         ctx.bound("meter_units", len(_METER["units"]))
         ctx.product("meter", counts, gen_meter)
+    if ctx.want("dots_order"):
+        import itertools as _it
+        orders = [list(p) for k in (1, 2, 3, 4) for p in _it.permutations((1, 2, 3, 4), k)]
+        ctx.bound("dots_order", "every ordered selection of dot counts 1..4 (%d) x base values 1, 4, 32, each in a freshly loaded module" % len(orders))
+        ctx.product("dots_order", ["1", "4", "32"], lambda b: ([b, o] for o in orders))
     if ctx.want("meter_pair"):
         pc = [-1, 0, 1, 2, 3, 5, 6, 9]
         pu = [enc_num(u) for u in (1, 2, 4, 8, 16, 3, 6, 0, 8.0, 4.0, 0.5)]
